@@ -22,6 +22,10 @@ func (xp xpathImpl) resolvePath(seg *xpath.Path, s *Selection) (*Selection, erro
 		if err != nil || sel == nil {
 			return nil, err
 		}
+		if seg.Next == nil {
+			// the expression ends on the container: it is there
+			return sel, nil
+		}
 		return xp.resolvePath(seg.Next, sel)
 	}
 	if meta.IsList(m) {
